@@ -89,3 +89,39 @@ def lookup_defect(expr):
     if any(any(v != 0 for v in p) for p in picks):
         return "element %s of the matches, not the first match" % ", ".join(str(list(p)) for p in reversed(picks))
     return None
+
+
+def truthiness_uses(root, names):
+    """Places where the truth value of one of `names` decides something:
+    `x or d`, `x and y`, `d if not x else x`, `if x:`, `while not x`,
+    `bool(x)`, `assert x`.  A number whose zero is a legitimate value (a
+    threshold, an offset, a level) must be tested with `is None`.
+    Yields (node, text)."""
+    def bare(t):
+        while isinstance(t, ast.UnaryOp) and isinstance(t.op, ast.Not):
+            t = t.operand
+        if isinstance(t, ast.Call) and isinstance(t.func, ast.Name) and t.func.id == "bool" and len(t.args) == 1:
+            t = t.args[0]
+        return t.id if isinstance(t, ast.Name) and t.id in names else None
+    for n in ast.walk(root):
+        if isinstance(n, ast.BoolOp):
+            for v in n.values:
+                nm = bare(v)
+                if nm:
+                    yield n, "`%s` takes the other operand whenever %s is 0" % (ast.unparse(n)[:70], nm)
+        elif isinstance(n, (ast.IfExp, ast.If, ast.While, ast.Assert)):
+            nm = bare(n.test)
+            if nm:
+                yield n, "`%s %s` tests the truth value of %s" % (type(n).__name__.lower(), ast.unparse(n.test)[:50], nm)
+        elif isinstance(n, ast.Call) and isinstance(n.func, ast.Name) and n.func.id == "bool" and len(n.args) == 1:
+            nm = bare(n)
+            if nm and not isinstance(getattr(n, "_parent", None), (ast.If, ast.IfExp, ast.While, ast.Assert, ast.BoolOp, ast.UnaryOp)):
+                yield n, "`%s` is the truth value of %s" % (ast.unparse(n), nm)
+
+
+def truthiness_control():
+    """Positive control of truthiness_uses: the forms it must recognise."""
+    src = ("def f(t, u, v, w):\n t = t or 4.0\n u = 8.0 if not u else u\n if v:\n  pass\n assert w\n"
+           " a = 1.0 if t is None else t\n")
+    hits = list(truthiness_uses(ast.parse(src), {"t", "u", "v", "w"}))
+    return len(hits) == 4
